@@ -17,8 +17,9 @@ Definition w_seg_a : token :=
     (Some [ mkPair t_name (wsp 0 0) (Some (mkL (EStr [SLit w_a] false false) (wsp 0 0) [])) (wsp 0 0);
             mkPair t_start (wsp 0 0) (Some (mkL (ENum 16 [50; 48; 48; 48]%N false false) (wsp 0 0) [])) (wsp 0 0) ]).
 
-(* `.define segment {..} / m1() / .macro m0() { sh: nop } / .macro m1() { lda sh } / m0() / sh: nop` *)
-Definition prog_stale : list token :=
+(* `.define segment {..} / m1() / .macro m0() { sh: nop } / .macro m1() { lda sh } / m0() / sh: nop`: since e323987 the
+   invocation of m1 keeps the scope `$macro_0` in every pass and `lda sh` means the `sh` at the end *)
+Definition prog_macro_before_definition : list token :=
   [ w_seg_a;
     TInvoke w_m1 (wsp 50 52) [];
     TMacroDef w_m0 (wsp 60 62) [] (Blk (wsp 65 66) (wsp 75 76) [TLabel w_sh (wsp 67 69) None; TInstr Nop (wsp 71 74) None]);
@@ -26,12 +27,25 @@ Definition prog_stale : list token :=
       [TInstr Lda (wsp 87 90) (Some (mkL (EId [w_sh] None false false) (wsp 91 93) [wsp 91 93], FAbs))]);
     TInvoke w_m0 (wsp 100 102) [];
     TLabel w_sh (wsp 110 112) None; TInstr Nop (wsp 114 117) None ].
+Lemma macro_before_definition_example :
+  exists c, codegen 10 10 default_options prog_macro_before_definition = Done c /\
+            Known_stale_symbol_survives c = false /\ map snd (segment_image c) = [[173; 4; 32; 234; 234]%N].
+Proof. eexists. vm_compute. repeat split. Qed.
+
+(* the include-guard idiom with a label: `.define segment {..} / .if !defined(x) { x: nop } / lda x`.  Pass 0 defines x and
+   emits the nop; from pass 1 on the branch is skipped, x keeps the value of pass 0 and stays in the table and the VICE list *)
+Definition w_x : ident := [120]%N.
+Definition prog_stale : list token :=
+  [ w_seg_a;
+    TIf (mkL (ECall t_defined [EId [w_x] None false false] true false) (wsp 50 61) [])
+        (Blk (wsp 62 63) (wsp 72 73) [TLabel w_x (wsp 64 65) None; TInstr Nop (wsp 67 70) None]) None;
+    TInstr Lda (wsp 75 78) (Some (mkL (EId [w_x] None false false) (wsp 79 80) [wsp 79 80], FAbs)) ].
 
 Lemma stale_symbol_witness :
   exists toks c, codegen 10 10 default_options toks = Done c /\ no_silent_change c /\
                  Known_stale_symbol_survives c = true /\
-                 map snd (segment_image c) = [[173; 0; 32; 234; 234]%N] /\ In ([[115; 104]%N], 8196) (vice_symbols c).
-Proof. exists prog_stale. eexists. vm_compute. repeat split. right. left. reflexivity. Qed.
+                 map snd (segment_image c) = [[173; 0; 32]%N] /\ In ([[120]%N], 8192) (vice_symbols c).
+Proof. exists prog_stale. eexists. vm_compute. repeat split. left. reflexivity. Qed.
 
 (* `* = $fb / lda a / lda b / lda c / a: nop / b: nop / c: nop`: every pass moves a, b and c; the loop gives up *)
 Definition ref (n : text) (lo : Z) : option (lexpr * form) := Some (mkL (EId [n] None false false) (wsp lo (lo + 1)) [wsp lo (lo + 1)], FAbs).
@@ -42,6 +56,21 @@ Definition prog_changed : list token :=
     TLabel w_b (wsp 33 34) None; TInstr Nop (wsp 36 39) None;
     TLabel w_c (wsp 40 41) None; TInstr Nop (wsp 43 46) None ].
 
-Lemma changed_reported_unknown_witness :
-  exists toks, Known_changed_reported_unknown (codegen 200 10 default_options toks) = true.
-Proof. exists prog_changed. vm_compute. reflexivity. Qed.
+(* since 0b9c159 the program assembles: the labels settle at $104.. after five passes *)
+Lemma changing_symbols_converge :
+  exists c, codegen 200 10 default_options prog_changed = Done c /\
+            map snd (segment_image c) = [[173; 4; 1; 173; 5; 1; 173; 6; 1; 234; 234; 234]%N].
+Proof. eexists. vm_compute. repeat split. Qed.
+
+(* add_symbol never puts anything into the undefined set: a symbol that changed value is never an "unknown identifier" *)
+Lemma changed_not_reported id sym c :
+  match add_symbol id sym c with Ret _ c' | Err _ c' => undefined c' = undefined c | Abort _ => True end.
+Proof.
+  unfold add_symbol.
+  destruct (try_index (symbols c) (current_scope_nx c) id).
+  - destruct (try_get (symbols c) n).
+    + destruct (redefinition s sym); [destruct (s_span sym); auto|].
+      destruct (negb (sdata_eqb (s_data s) (s_data sym))); [destruct (symtype_eqb (s_ty sym) TyVariable)|]; reflexivity.
+    + destruct (symtype_eqb (s_ty sym) TyVariable); reflexivity.
+  - destruct (split_last (current_scope c ++ id)). destruct (ensure_index (symbols c) root i). destruct (insert s n i0 (Some sym)). reflexivity.
+Qed.
